@@ -11,7 +11,7 @@ man = json.load(open(V + "/MANIFEST.json"))
 claimed = [c["property_id"] for c in man["checks"]]
 res = {}
 for sd in sorted(os.listdir(V + "/seeded")):
-    if not sd.startswith(pref): continue
+    if not sd.startswith(pref) or not os.path.isdir(f"{V}/seeded/{sd}"): continue
     meta = json.load(open(f"{V}/seeded/{sd}/meta.json"))
     prop = meta["property"]
     d, repo = selftest.make_scratch()
